@@ -733,8 +733,88 @@ func (x *c09Ctx) limitItemTakers(sync, san *ssa.Function, sanCall *ssa.Call, cel
 	// on its own parameter.
 	var takers []*ssa.Function
 	isTaker := map[*ssa.Function]bool{}
+	// Forwarders upstream of the entry point are not takers: a function whose limit-item
+	// parameter is only handed on to the entry Sync (or to another forwarder) and read for its
+	// identification (Name) sits BEFORE the sanitizer — it carries the raw answer to the place
+	// where it is sanitized.
+	fwdMemo := map[*ssa.Function]int{}
+	var isForwarder func(fn *ssa.Function) bool
+	isForwarder = func(fn *ssa.Function) bool {
+		if v, ok := fwdMemo[fn]; ok {
+			return v != 2
+		}
+		fwdMemo[fn] = 1 // assumed while recursing
+		ok := true
+		var useOK func(v ssa.Value, depth int) bool
+		useOK = func(v ssa.Value, depth int) bool {
+			if v.Referrers() == nil || depth > 4 {
+				return false
+			}
+			for _, r := range *v.Referrers() {
+				switch u := r.(type) {
+				case *ssa.DebugRef:
+				case *ssa.Store:
+					if u.Addr == v {
+						continue // the spill that initialises the cell
+					}
+					if u.Val != v {
+						return false
+					}
+					al, isAl := u.Addr.(*ssa.Alloc)
+					if !isAl || !useOK(al, depth+1) {
+						return false
+					}
+				case *ssa.UnOp:
+					if u.Op != token.MUL || !useOK(u, depth+1) {
+						return false
+					}
+				case *ssa.FieldAddr:
+					if fieldNameOf(u.X.Type(), u.Field) != "Name" {
+						return false
+					}
+				case *ssa.Field:
+					if fieldNameOf(u.X.Type(), u.Field) != "Name" {
+						return false
+					}
+				case ssa.CallInstruction:
+					cc := u.Common()
+					switch {
+					case cc.IsInvoke() && cc.Method.Name() == "Sync":
+					case cc.StaticCallee() == sync:
+					case cc.StaticCallee() != nil && cc.StaticCallee().Pkg == fn.Pkg && isForwarder(cc.StaticCallee()):
+					default:
+						return false
+					}
+				default:
+					return false
+				}
+			}
+			return true
+		}
+		n := 0
+		for _, p := range fn.Params {
+			if eng.TypeName(p.Type()) == tLimitItem {
+				n++
+				if !useOK(p, 0) {
+					ok = false
+				}
+			}
+		}
+		if n == 0 {
+			ok = false
+		}
+		if ok {
+			fwdMemo[fn] = 1
+		} else {
+			fwdMemo[fn] = 2
+		}
+		return ok
+	}
 	for _, fn := range c.W.FuncsOf(pkgFCRemote) {
 		if fn.Parent() != nil || fn == sync || fn == san || fn.Synthetic != "" {
+			continue
+		}
+		if isForwarder(fn) {
 			continue
 		}
 		for _, p := range fn.Params {
